@@ -1169,6 +1169,11 @@ def solve(objfun, x0, h=None, lh=None, prox_uh=None, argsf=(), argsh=(), argspro
             if do_logging:
                 module_logger.info("Unsuccessful run with new f = %s compared to old f = %s" % (objmin2, objmin))
 
+    # An auto-detected restart is an internal signal for the loop above; if it could not be acted on (budget used up),
+    # report why the solver actually stopped rather than leaking the internal flag
+    if exit_info.flag == EXIT_AUTO_DETECT_RESTART_WARNING and nf >= maxfun:
+        exit_info = ExitInformation(EXIT_MAXFUN_WARNING, "Objective has been called MAXFUN times")
+
     # Only report this if it is the reason the hard restart loop above stopped (otherwise keep the run's own exit information)
     if params("restarts.use_restarts") and not params("restarts.use_soft_restarts") and nf < maxfun and exit_info.able_to_do_restart() \
             and nruns - last_successful_run >= params("restarts.max_unsuccessful_restarts"):
